@@ -30,6 +30,7 @@ type pathStep struct {
 }
 
 type LV struct {
+	base ssa.Value // the pointer / slice value whose object is addressed (nil: unknown)
 	kind lvKind
 	heap string
 	hso  *Sort // sort of the heap variable
@@ -193,7 +194,7 @@ func (g *Gen) resolveAddr(v ssa.Value, st State) LV {
 			}
 		}
 		base := g.val(a.X)
-		return LV{kind: lvField, heap: g.fieldHeapName(pt.Elem(), f.Name()), hso: &Sort{K: KRaw, Name: "(Array Int " + fso.Name + ")"},
+		return LV{base: a.X, kind: lvField, heap: g.fieldHeapName(pt.Elem(), f.Name()), hso: &Sort{K: KRaw, Name: "(Array Int " + fso.Name + ")"},
 			obj: base.S, vso: fso, so: fso, goT: f.Type()}
 	case *ssa.IndexAddr:
 		base := g.val(a.X)
@@ -202,7 +203,7 @@ func (g *Gen) resolveAddr(v ssa.Value, st State) LV {
 			return LV{kind: lvBad}
 		}
 		idx := g.toInt(g.val(a.Index))
-		lv := LV{kind: lvElem, heap: g.elemHeapName(elT), hso: g.elemHeapSort(el), vso: el, so: el, goT: elT}
+		lv := LV{base: a.X, kind: lvElem, heap: g.elemHeapName(elT), hso: g.elemHeapSort(el), vso: el, so: el, goT: elT}
 		if base.So.K == KSlice {
 			lv.obj = app("s_obj", base.S)
 			lv.idx = app("+", app("s_off", base.S), idx)
@@ -240,7 +241,7 @@ func (g *Gen) resolveAddr(v ssa.Value, st State) LV {
 		return LV{kind: lvBad}
 	}
 	base := g.val(v)
-	return LV{kind: lvDeref, heap: "P." + typeKey(pt.Elem()), hso: &Sort{K: KRaw, Name: "(Array Int " + so.Name + ")"}, obj: base.S, vso: so, so: so, goT: pt.Elem()}
+ 	return LV{base: v, kind: lvDeref, heap: "P." + typeKey(pt.Elem()), hso: &Sort{K: KRaw, Name: "(Array Int " + so.Name + ")"}, obj: base.S, vso: so, so: so, goT: pt.Elem()}
 }
 
 // isCellAlloc: allocations that are modelled as a local mutable cell (everything except
@@ -319,6 +320,9 @@ func rebuild(container string, path []pathStep, val string) string {
 }
 
 func (g *Gen) lvStore(lv LV, st State, val string) {
+	if lv.kind == lvField || lv.kind == lvElem || lv.kind == lvDeref {
+		g.recordWrite(lv.heap, lv.base)
+	}
 	nv := val
 	if len(lv.path) > 0 {
 		nv = rebuild(g.lvBase(lv, st), lv.path, val)
@@ -526,6 +530,7 @@ func (g *Gen) run() {
 	// dry pass: discover which state components each block assigns
 	g.dry = true
 	g.blockMods = map[*ssa.BasicBlock]map[string]*Sort{}
+	g.writeLog = map[*ssa.BasicBlock][]writeRec{}
 	g.runPass()
 	mods := g.blockMods
 	saveSorts := g.stSorts
@@ -582,6 +587,7 @@ func (g *Gen) runPass() {
 	}
 	g.stGet(st, "alloc", SMath)
 	g.assume(app(">=", st["alloc"], "0"))
+	g.stGet(st, "E.uint8", g.elemHeapSort(SBV8))
 	// global invariants and requires
 	isInit := fn.Name() == "init" && fn.Synthetic != ""
 	if isInit {
@@ -796,10 +802,74 @@ func (g *Gen) execBlock(b *ssa.BasicBlock, initial State) {
 	}
 }
 
+type writeRec struct {
+	heap string
+	base ssa.Value
+}
+
+func (g *Gen) recordWrite(heap string, base ssa.Value) {
+	if !g.dry || g.curBlock == nil {
+		return
+	}
+	g.writeLog[g.curBlock] = append(g.writeLog[g.curBlock], writeRec{heap, base})
+}
+
+// loopFrame: when every write of the loop body to a heap goes through a base value defined
+// outside the loop, all other pre-existing objects of that heap are unchanged by the loop.
+func (g *Gen) loopFrame(li *loopInfo, name string, pre, st State) {
+	if !(strings.HasPrefix(name, "F.") || strings.HasPrefix(name, "E.") || strings.HasPrefix(name, "P.")) {
+		return
+	}
+	var bases []ssa.Value
+	seen := map[ssa.Value]bool{}
+	for b := range li.body {
+		for _, w := range g.writeLog[b] {
+			if w.heap != name && w.heap != "*" {
+				continue
+			}
+			if w.base == nil {
+				return
+			}
+			if in, ok := w.base.(ssa.Instruction); ok {
+				if li.body[in.Block()] {
+					return
+				}
+			}
+			if !seen[w.base] {
+				seen[w.base] = true
+				bases = append(bases, w.base)
+			}
+		}
+	}
+	var conds []string
+	for _, b := range bases {
+		t := g.val(b)
+		if t.So.K == KSlice {
+			conds = append(conds, not(app("=", "o!q", app("s_obj", t.S))))
+		} else {
+			conds = append(conds, not(app("=", "o!q", t.S)))
+		}
+	}
+	a0 := pre["alloc"]
+	if a0 == "" {
+		a0 = g.stGet(pre, "alloc", SMath)
+	}
+	conds = append(conds, app("<=", "o!q", a0))
+	g.assume(fmt.Sprintf("(forall ((o!q Int)) (! (=> %s (= (select %s o!q) (select %s o!q))) :pattern ((select %s o!q))))", and(conds...), st[name], pre[name], st[name]))
+}
+
 func (g *Gen) loopModSet(li *loopInfo) map[string]*Sort {
 	mods := map[string]*Sort{}
 	for b := range li.body {
 		for n, so := range g.blockMods[b] {
+			if n == "*" {
+				for hn, hso := range g.stSorts {
+					if strings.HasPrefix(hn, "F.") || strings.HasPrefix(hn, "E.") || strings.HasPrefix(hn, "P.") || strings.HasPrefix(hn, "M.") {
+						mods[hn] = hso
+					}
+				}
+				continue
+			}
 			mods[n] = so
 		}
 	}
@@ -822,10 +892,11 @@ func (g *Gen) enterLoop(h *ssa.BasicBlock, li *loopInfo, st State, fwd []predEdg
 		}
 		sort.Strings(names)
 		for _, n := range names {
-			if strings.HasPrefix(n, "C.") {
-				// cells local to the function: havoc as well
+			if _, ok := pre[n]; !ok {
+				pre[n] = g.stGet(st, n, mods[n])
 			}
 			g.stHavoc(st, n, mods[n])
+			g.loopFrame(li, n, pre, st)
 		}
 		if a, ok := pre["alloc"]; ok {
 			if st["alloc"] != a {
